@@ -296,9 +296,15 @@ struct C06 : Driver {
     } else if (tier && rng.below(400) == 0) {
       Bytes p = gen::random_bytes(rng, 899990 + rng.below(11), 2 + (unsigned)rng.below(3));
       c.data = bz::libbz2_encode(p, 9); c.data_desc = "libbz2 full level-9 block";
+    } else if (rng.below(12) == 0) {
+      // conforming files that happen to contain the block-header pattern where no block starts (C10's generator; only the valid ones
+      // are judged here): such a file is as conforming as any other (seeded change C06-3)
+      int pk = 0; c.data = bz::gen_planted(rng, &pk).bytes; c.data_desc = "planted-pattern kind " + std::to_string(pk);
+      c.p["planted"] = 1;
     } else c.data = gen_dec_input(rng, tier, 0, &c.data_desc);
     size_t hint = c.data.size() * 20 + 1000;
     for (int k = 0; k < 2; k++) c.runs.push_back(dec_cfg_for(rng, c.data, hint, true));
+    if (c.p.count("planted")) for (auto &r : c.runs) { static const size_t ig[] = {8, 16, 32, 64, 128, 256, 1024}; r.in_granul = ig[rng.below(7)]; if (r.workers() < 2) r.set_workers(2 + (int)rng.below(5)); }
     return c;
   }
   Verdict eval(const Case &c, Ctx &ctx) const override {
